@@ -911,6 +911,45 @@ def leave_effects(ctx, fi):
     return (not miss), "after LeaveGroup " + "; ".join(miss)
 
 
+
+def rule_cancel_reaches(ctx, sites):
+    R = "cancel-reaches-routine"
+    ctx.rep.rule(R, "the closers stop the background routines by cancelling them and then awaiting them, so a routine must END when it is "
+                    "cancelled: in every coroutine the package spawns as a task, a suspension point whose CancelledError is caught (an "
+                    "`except CancelledError`/bare except arm, or contextlib.suppress(CancelledError)) may only be followed by the way out -- "
+                    "after the catch no `while` loop head is reachable; a routine that swallows its own cancellation and loops again is "
+                    "awaited for ever by close() (a task is told to cancel only once)")
+    routines = {}
+    for s in sites:
+        for r in s.routines:
+            routines[r.qualname] = r
+    n = 0
+    for q, fi in sorted(routines.items()):
+        if not fi.is_async:
+            continue
+        c = ctx.cfg(fi)
+        for node in c.nodes:
+            if node.kind not in ("await", "yield") or not ctx.suspends(fi, node):
+                continue
+            fr = _catching_frame(node)
+            if fr is None:
+                continue
+            n += 1
+            if fr[0] == "suppress":
+                start = [x for x in c.nodes if x.kind == "with_exit" and x.ast is fr[1]]
+                if not start:
+                    start = [m for m, l in node.succ if l != "exc"]
+            else:
+                start = [x for x in c.nodes if x.kind == "handler" and x.ast is fr[1]]
+            after = c.reachable(start, exc=False, include_src=True)
+            heads = [h for h in after if h.kind == "loop" and isinstance(h.ast, ast.While)]
+            ctx.ob(R, fi, node, not heads,
+                   f"a cancellation that arrives at `{unparse(node.ast)[:60]}` is caught ({fr[0]} at line {fr[1].lineno}) and the routine can go round "
+                   f"`while {unparse(heads[0].ast.test)[:40] if heads else ''}` again (line {heads[0].lineno if heads else 0}): the closer that cancelled it waits for ever",
+                   text="swallow:" + unparse(node.ast)[:60])
+    ctx.anchor(n >= 10, f"suspension points under a CancelledError-catching frame in spawned routines: {n} < 10")
+
+
 def run(ctx):
     rep = ctx.rep
     rep.explanation = ("C19: structural clauses of 'stop() terminates and leaves nothing running' decided on the CFGs of the shutdown "
@@ -921,6 +960,7 @@ def run(ctx):
     rule_stop_chain(ctx)
     rule_release(ctx, sites)
     rule_cancel_await(ctx, sites)
+    rule_cancel_reaches(ctx, sites)
     rule_closing_loops(ctx)
     rule_closing_waits(ctx)
     rule_after_stop(ctx)
